@@ -344,7 +344,14 @@ def evaluate(sc: Dict[str, Any], sseed: int, profile: Dict[str, Any], feed: Opti
     L = sc["L"]
     exp = N.expected(qast, doc, L)
     work = exp.get("work", 0)
-    cap = max(300_000, 400 * work)
+    # Evaluation is a lazy pipeline: before the segment that must raise gets to the offending
+    # node, the segments after it may already have processed everything yielded so far, and a
+    # child segment costs something per input node even when it selects nothing.  Bounded time
+    # is therefore judged against the size of the data times the number of segments (for cyclic
+    # data: the part within the limit), on top of the reference walk's own work.
+    gsize = len(sc["spec"]["graph"]) if "graph" in sc["spec"] else D.count_nodes(doc)
+    factor = 1 if exp.get("max_nesting") != N.INF else min(L, 300)
+    cap = max(300_000, 400 * (work + gsize * len(qast["segs"]) * factor))
     env = env_for(L, sc["nondet"])
     sim = simrandom.SimRandom(sseed, profile, feed)
     simrandom.install(sim)
